@@ -21,5 +21,6 @@ git checkout --ours MANIFEST.json known_findings.json 2>/dev/null
 for f in $(git diff --name-only --diff-filter=U | grep "^evidence/"); do git checkout --theirs "$f" && git add "$f"; done
 python3 gen_manifest.py
 git add hooks.json MANIFEST.json known_findings.json
+for f in $(git diff --name-only --diff-filter=U | grep "^seeded/.*/eval.json$"); do python3 tools/merge_eval_json.py "$f"; done
 echo "--- unmerged paths:"
 git diff --name-only --diff-filter=U
